@@ -48,6 +48,7 @@ type Req struct {
 	Shared bool
 	PrintRaw bool // call PrintSyntaxTree() on the process's standard output (not captured per call)
 	Misuse bool
+	Reinit bool
 	TreeFirst bool // build and print the syntax tree BEFORE calling Execute() (default: Execute first)
 }
 
@@ -276,7 +277,14 @@ func history[U Uint](req *Req) (res Res) {
 			}()
 			p.Buffer = string(in)
 			p.Trace, p.Events, p.Bad, p.End = nil, nil, nil, 0
-			p.Reset()
+			if req.Reinit && k > 0 {
+				// the other way of reusing a parser object: initialise it again
+				if err := p.Init(options[U](req)...); err != nil {
+					panic("Init error: " + err.Error())
+				}
+			} else {
+				p.Reset()
+			}
 			entry := req.Entry
 			if k < len(req.HistEntry) {
 				entry = req.HistEntry[k]
